@@ -692,9 +692,19 @@ def lossy_cache_keys(ctx, rid):
             for p in sorted(used):
                 comps = [e for e in key_exprs if any(isinstance(x, ast.Name) and x.id == p for x in ast.walk(e))]
                 if not comps:
+                    # the stored value itself is built from the star parameter, the key does not mention it at all, and the
+                    # container outlives the call (a module-level name, not a local): every request shares the first one's entry
+                    if depends(st.value) == p and resolved and isinstance(base, ast.Name) and base.id not in assigns \
+                            and base.id not in f.params() and base.id in {t_.id for a_ in f.module.tree.body if isinstance(a_, (ast.Assign, ast.AnnAssign))
+                                            for t_ in (a_.targets if isinstance(a_, ast.Assign) else [a_.target]) if isinstance(t_, ast.Name)}:
+                        n += 1
+                        r.bad(rid, "cache-key::%s::%s" % (f.qual, p), "%s:%d" % (f.module.rel, st.lineno),
+                              "%s stores a value built from `%s` in the module-level cache %s under the key %s, which does not contain "
+                              "it: a later request with other keyword arguments (fullTree=True after a plain parse) gets the first "
+                              "request's entry" % (f.qual, p, base.id, [norm(e) for e in keys]))
                     continue
                 n += 1
-                kwarg = f.node.args.kwarg is not None and f.node.args.kwarg.arg == p
+                kwarg =f.node.args.kwarg is not None and f.node.args.kwarg.arg == p
                 full = any(norm(e) == p or ("%s.items()" % p) in norm(e) for e in comps)
                 lossy = [norm(e) for e in comps if norm(e) in ("tuple(sorted(%s))" % p, "tuple(%s)" % p, "tuple(%s.keys())" % p, "sorted(%s)" % p,
                                                                "frozenset(%s)" % p, "len(%s)" % p, "bool(%s)" % p, "tuple(sorted(%s.keys()))" % p)]
@@ -966,6 +976,9 @@ def thorough(ctx):
 def mutants():
     from ..selftest import TextMutant as T
     return [
+        T("default-etree-builder-cached-by-type", "treebuilders/__init__.py",
+          "            # NEVER cache here, caching is done in the etree submodule\n            return etree.getETreeModule(implementation, **kwargs).TreeBuilder\n",
+          "            treeBuilderCache[treeType] = etree.getETreeModule(implementation, **kwargs).TreeBuilder\n", "R12.5"),
         T("module-cache-placeholder", "_utils.py", "            moduleCache[baseModule][args][kwargs_tuple] = mod\n", "            moduleCache[baseModule][args][kwargs_tuple] = {}\n            moduleCache[baseModule][args][kwargs_tuple] = mod\n", "R12.6"),
         T("scripting-sticky", "html5parser.py", "        self.scripting = scripting\n", "        if scripting:\n            self.scripting = scripting\n", "R12.7"),
         T("errors-accumulate", "html5parser.py", "        self.firstStartTag = False\n        self.errors = []\n", "        self.firstStartTag = False\n        self.errors = self.errors[:0] if hasattr(self, \"errors\") else []\n", "R12.7"),
